@@ -2,4 +2,4 @@ SPECIFICATION Spec
 CONSTANTS
   MaxLines = 3
   LenClasses = {"t", "h", "m"}
-INVARIANTS TypeOK Contiguous RunsToOldest ReadBackwardsComplete SeekLandsOnEntry OkSeekKeepsOlder AbsentReports PresentNeverError FileClasses BelowAgrees FallthroughAdmissible
+INVARIANTS TypeOK Contiguous RunsToOldest ReadBackwardsComplete SeekLandsOnEntry OkSeekKeepsOlder AbsentReports PresentNeverError FileClasses BelowAgrees FallthroughAdmissible EmptyAsTooEarlyComposes OnlyTooEarlyForEmptyCurrent
